@@ -760,6 +760,23 @@ fn emit_packed_statics(rs: &mut String, raw: &verif::packed::api::RawSearcher) -
         write!(rs, "({}, {}),", arr(lo), arr(hi)).unwrap();
     }
     writeln!(rs, "];").unwrap();
+    // 256-bit tables (slim AVX2: 8 buckets, fat AVX2: 16 buckets); empty for the 128-bit variant
+    let mut tb = raw.teddy_buckets256.clone();
+    while tb.len() < 16 {
+        tb.push(vec![]);
+    }
+    for (i, b) in tb.iter().enumerate().take(16) {
+        writeln!(rs, "pub static TC{}: [u32; {}] = {};", i, b.len(), arr(b)).unwrap();
+    }
+    writeln!(rs, "pub static TBS16: [&[u32]; 16] = [{}];", (0..16).map(|i| format!("&TC{}", i)).collect::<Vec<_>>().join(", ")).unwrap();
+    write!(rs, "pub static TMASKS256: [([u8; 32], [u8; 32]); {}] = [", raw.teddy_masks256.len()).unwrap();
+    for (lo, hi) in &raw.teddy_masks256 {
+        write!(rs, "({}, {}),", arr(lo), arr(hi)).unwrap();
+    }
+    writeln!(rs, "];").unwrap();
+    if raw.teddy_variant == 2 {
+        return if raw.teddy_rebuildable { raw.teddy_masks256.len() } else { 0 };
+    }
     teddy_bytes
 }
 
@@ -767,10 +784,10 @@ fn emit_packed_statics(rs: &mut String, raw: &verif::packed::api::RawSearcher) -
 /// (patterns P0.. must be in scope under `pp`).
 fn packed_expr(raw: &verif::packed::api::RawSearcher, npats: usize, pp: &str, teddy_bytes: usize) -> String {
     format!(
-        "aho_corasick::verif::packed::api::from_parts({}, vec![{}], &ORDER, {}, &RKB, {}, {}, {}, &TBS, &TMASKS, {})",
+        "aho_corasick::verif::packed::api::from_parts({}, vec![{}], &ORDER, {}, &RKB, {}, {}, {}, &TBS, &TMASKS, {}, {}, &TBS16, &TMASKS256)",
         raw.kind,
         (0..npats).map(|i| format!("aho_corasick::verif::packed::pattern::pat(&{}P{})", pp, i)).collect::<Vec<_>>().join(", "),
-        raw.patterns_minimum_len, raw.rk_hash_len, raw.rk_hash_2pow, teddy_bytes, raw.minimum_len
+        raw.patterns_minimum_len, raw.rk_hash_len, raw.rk_hash_2pow, teddy_bytes, raw.minimum_len, raw.teddy_variant
     )
 }
 
@@ -807,7 +824,8 @@ fn gen_packed(line: &str, rs: &mut String, facts: &mut String) {
     write!(facts, "{}: {{", json_str(&format!("packed:{}", spec.name))).unwrap();
     write!(facts, "\"pats\": [{}], ", spec.pats.iter().map(|p| json_str(&hex(p))).collect::<Vec<_>>().join(",")).unwrap();
     write!(facts, "\"kind\": {}, \"force\": {}, \"imp\": {}, \"minimum_len\": {}, \"teddy_bytes\": {}, \"order\": {:?}, ", spec.kind, json_str(&spec.force), json_str(&raw.imp), raw.minimum_len, teddy_bytes, raw.order).unwrap();
-    write!(facts, "\"rk_hash_len\": {}, \"max_bucket\": {}, \"max_teddy_bucket\": {}, \"teddy_nonempty_buckets\": {}, ", raw.rk_hash_len, raw.rk_buckets.iter().map(|b| b.len()).max().unwrap_or(0), raw.teddy_buckets.iter().map(|b| b.len()).max().unwrap_or(0), raw.teddy_buckets.iter().filter(|b| !b.is_empty()).count()).unwrap();
+    let tbk = if raw.teddy_variant == 0 { &raw.teddy_buckets } else { &raw.teddy_buckets256 };
+    write!(facts, "\"rk_hash_len\": {}, \"max_bucket\": {}, \"max_teddy_bucket\": {}, \"teddy_nonempty_buckets\": {}, \"teddy_variant\": {}, ", raw.rk_hash_len, raw.rk_buckets.iter().map(|b| b.len()).max().unwrap_or(0), tbk.iter().map(|b| b.len()).max().unwrap_or(0), tbk.iter().filter(|b| !b.is_empty()).count(), raw.teddy_variant).unwrap();
     write!(facts, "\"problems\": [{}]", problems.iter().map(|s| json_str(s)).collect::<Vec<_>>().join(",")).unwrap();
     facts.push('}');
 }
@@ -861,6 +879,25 @@ fn stubcheck() -> i32 {
             }
         }
     }
+    #[cfg(target_arch = "x86_64")]
+    if std::is_x86_feature_detected!("avx2") {
+        for _ in 0..100_000 {
+            let mut va = [0u8; 32];
+            let mut vb = [0u8; 32];
+            for i in 0..32 {
+                va[i] = rnd() as u8;
+                vb[i] = rnd() as u8;
+            }
+            unsafe {
+                use core::arch::x86_64::*;
+                let ra: [u8; 32] = core::mem::transmute(real_pshufb256(core::mem::transmute(va), core::mem::transmute(vb)));
+                let rb: [u8; 32] = core::mem::transmute(stubs::pshufb256_model(core::mem::transmute::<[u8; 32], __m256i>(va), core::mem::transmute::<[u8; 32], __m256i>(vb)));
+                if ra != rb {
+                    bad += 1;
+                }
+            }
+        }
+    }
     println!("stub validation: 100000 rounds, {} disagreements", bad);
     (bad > 0) as i32
 }
@@ -871,6 +908,12 @@ unsafe fn real_pshufb(a: core::arch::x86_64::__m128i, b: core::arch::x86_64::__m
     core::arch::x86_64::_mm_shuffle_epi8(a, b)
 }
 
+#[cfg(target_arch = "x86_64")]
+#[target_feature(enable = "avx2")]
+unsafe fn real_pshufb256(a: core::arch::x86_64::__m256i, b: core::arch::x86_64::__m256i) -> core::arch::x86_64::__m256i {
+    core::arch::x86_64::_mm256_shuffle_epi8(a, b)
+}
+
 fn main() {
     let args: Vec<String> = std::env::args().collect();
     match args.get(1).map(|s| s.as_str()) {
@@ -879,6 +922,7 @@ fn main() {
         Some("selftest") => std::process::exit(replay::selftest(&args[2])),
         Some("stubcheck") => std::process::exit(stubcheck()),
         Some("guardchild") => std::process::exit(replay::guardchild()),
+        Some("guardteddy") => std::process::exit(replay::guardteddy(&args[2..])),
         _ => {
             eprintln!("usage: vdump gen|replay|selftest ...");
             std::process::exit(2);
